@@ -644,6 +644,9 @@ def translate(d):
         lines.append("  (* %s *) (%d, [%s])%s" % (l, n, ";\n      ".join(items), ";" if n + 1 < len(entries) else ""))
     lines.append("].")
     lines.append("")
+    for n, (l, items) in enumerate(entries):
+        lines.append("Definition code_%s : Z := %d." % (l.replace("SEXP_OP_", ""), n))
+    lines.append("")
     return dict(coq="\n".join(lines), names=names, msgs=msgs, skipped=skipped, untouched=sorted(untouched), sha=sha,
                 items={l: it for l, it in entries})
 
